@@ -21,6 +21,16 @@
          fmt 0 CSV, 1 TAB, 2 XLSX, 3 ODS, 4 NUMBERS, 6 NDJSON, 7 fixed text, 8 EBCDIC
      (1 ((name (key ...) rows) ...) ((name (key ...) rows) ...))
          the read-only XLS sample and the XLSX sample, each read with its own header row
+     (2 fmt content ((key ...) ...) (sheetobs ...))
+         the glue of one office format on typed cells.  content = the document as the third-party parser holds it, dumped
+         by the runner through the library directly (not through stingray): fmt 2 XLSX / 3 ODS / 5 XLS ((name ((cell ...) ...)) ...),
+         fmt 4 NUMBERS ((sheet ((table ((cell ...) ...)) ...)) ...), a cell in the wire form of a value; the probe names of
+         every presented sheet; what the facade run (heading-row binding) observed.
+         [good]  = every stored sheet (sheet::table for Numbers) is presented once, in order, under its name, and reads
+                   exactly as its stored rows read when handed to Sheet.row_iter as they are (the single-sheet path of
+                   the model, which goes through no glue): every row, in order, every cell unconverted.
+         [agree] = the observation is what Model/Workbook.v computes from the content through the glue rules of
+                   Gen/ImplParams.v.
    [good]  = every file of every format shows exactly the abstract workbook (Spec/Transparency.v:
              sheets by name and order, [cells_by_name] for every row; the padded table for the fixed
              formats; sheet::table for Numbers).
@@ -257,8 +267,43 @@ Definition judge_sample (c : sx) : sx :=
   let good := list_eqb sample_sheet_agree a b in
   verdict None good good 5 (L []).
 
+(* ---------------------------------------------------------------- typed cells through the office glue *)
+Definition dec_cell (x : sx) : cell := match dec_cellopt x with Some c => c | None => none_obj end.
+Definition dec_sheet_rows (x : sx) : sheet := map (fun r => map dec_cell (as_list r)) (as_list x).
+Definition dec_book (x : sx) : list (key * sheet) :=
+  map (fun s => (as_Ns (nth_sx 0 s), dec_sheet_rows (nth_sx 1 s))) (as_list x).
+Definition dec_numbers (x : sx) : list (key * list (key * sheet)) :=
+  map (fun s => (as_Ns (nth_sx 0 s), dec_book (nth_sx 1 s))) (as_list x).
+
+(* the stored sheets read without any glue: each handed to Sheet.row_iter as the rows it holds *)
+Fixpoint plain_read (ss : list (key * sheet)) (probes : list (list key)) (i : nat) : obs :=
+  match ss with
+  | [] => []
+  | (n, rows) :: t => (n, read_sheet_header (C_single rows) [] (probes_at probes i)) :: plain_read t probes (S i)
+  end.
+
+Definition judge_typed (c : sx) : sx :=
+  let f := as_Z (nth_sx 1 c) in
+  let probes := map (fun p => map as_Ns (as_list p)) (as_list (nth_sx 3 c)) in
+  let o := dec_obs (nth_sx 4 c) in
+  let d := dec_numbers (nth_sx 2 c) in
+  let b := dec_book (nth_sx 2 c) in
+  let numbers := f =? 4 in
+  let wf := numbers || (f =? 2) || (f =? 3) || (f =? 5) in
+  let stored := if numbers then flat_map (fun s => map (fun t => (composite (fst s) (fst t), snd t)) (snd s)) d else b in
+  let content := if numbers then C_numbers d else C_multi (if f =? 3 then B_ODS else if f =? 5 then B_XLS else B_XLSX) b in
+  let fm := if numbers then F_NUMBERS else if f =? 3 then F_ODS else if f =? 5 then F_XLS else F_XLSX in
+  let good := obs_eqb o (plain_read stored probes 0) in
+  let agree := reader_ok fm && obs_eqb o (read_header content probes) in
+  let known := if numbers && existsb (fun s => existsb (fun t => negb (splits_back (fst s, fst t))) (snd s)) d
+               then Some 1 else None in
+  let br := if existsb (fun s => (2 <=? length (snd s))%nat) stored then 6 else 0 in
+  let detail := L [A f; of_bool good; of_bool agree] in
+  if wf then verdict known good agree br detail else L [A 9; A br; detail].
+
 Definition judge (c : sx) : sx :=
   let stream := as_Z (nth_sx 0 c) in
   if stream =? 0 then judge_tables c
   else if stream =? 1 then judge_sample c
+  else if stream =? 2 then judge_typed c
   else L [A 9; A (-1); L []].
